@@ -2,6 +2,7 @@
 (iii) to search for a concrete failing input after an obligation broke.  They are independent of
 the Coq models and of ngo's own helper functions.  No verdict of "holds" rests on them."""
 import contextlib
+import clingo
 import io
 import logging
 import os
@@ -338,7 +339,73 @@ def c07_check(payload):
     if a != b:
         return {"kind": "input-predicate-heads-changed", "source": {f"{k[0]}/{k[1]}": v for k, v in a.items()},
                 "result": {f"{k[0]}/{k[1]}": v for k, v in b.items()}}
+    # freshness: an invented predicate never coincides with a source predicate. Renaming every source predicate
+    # (prefix "zq": cannot produce a name of the shape ngo generates) must therefore leave the SHAPE of the result
+    # unchanged: same number of distinct predicates, same multiset of (arity, defining rules, body occurrences)
+    try:
+        if any(k in text for k in (";", "&", "#external", "#project", "#heuristic", "#edge", "#defined", "#script")):
+            return None         # pools / theory atoms / directives: the renamer does not cover them
+        ren = rename_predicates(prg, "zq")
+        rip = [type(p)("zq" + p.name, p.arity) for p in ip]
+        rop = [type(p)("zq" + p.name, p.arity) for p in op]
+        from ngo.api import optimize
+        flags = {t: (t in payload.get("traits", [])) for t in asp_oracle.TRAITS}
+        res2 = optimize(ren, rip, rop, **flags)
+    except Exception:  # pylint: disable=broad-except
+        return None
+    s1, s2 = shape(res), shape(res2)
+    if s1 != s2:
+        return {"kind": "result-shape-depends-on-predicate-names", "shape": str(s1)[:300], "shape_renamed": str(s2)[:300],
+                "result": "\n".join(str(x) for x in res)[:1200], "result_renamed": "\n".join(str(x) for x in res2)[:1200]}
     return None
+
+
+def rename_predicates(prg, prefix):
+    """every symbolic atom p(..) -> <prefix>p(..); #show p/n likewise (theory atoms untouched)"""
+    from clingo.ast import Transformer
+
+    class Ren(Transformer):
+        def visit_SymbolicAtom(self, sa):
+            sym = sa.symbol
+            if sym.ast_type == ASTType.Function:
+                return sa.update(symbol=sym.update(name=prefix + sym.name))
+            if sym.ast_type == ASTType.SymbolicTerm and sym.symbol.type == clingo.SymbolType.Function \
+                    and not sym.symbol.arguments:
+                return sa.update(symbol=sym.update(symbol=clingo.Function(prefix + sym.symbol.name, [],
+                                                                           sym.symbol.positive)))
+            if sym.ast_type == ASTType.UnaryOperation and sym.argument.ast_type == ASTType.Function:
+                return sa.update(symbol=sym.update(argument=sym.argument.update(name=prefix + sym.argument.name)))
+            return sa
+
+        def visit_ShowSignature(self, st):
+            return st.update(name=prefix + st.name) if st.name else st
+
+        def visit_TheoryAtom(self, ta):
+            return ta
+    r = Ren()
+    return [r.visit(s) for s in prg]
+
+
+def shape(stms):
+    """multiset of (arity, #rules with the predicate in a positive head, #occurrences outside heads)"""
+    from clingo.ast import Transformer
+    heads, uses = {}, {}
+    for s in stms:
+        hs = positive_head_atoms(s) if s.ast_type in (ASTType.Rule,) else set()
+        for h in hs:
+            heads[h] = heads.get(h, 0) + 1
+
+        class Cnt(Transformer):
+            def visit_SymbolicAtom(self, sa):
+                sym = sa.symbol
+                if sym.ast_type == ASTType.Function:
+                    k = (sym.name, len(sym.arguments))
+                    uses[k] = uses.get(k, 0) + 1
+                return sa
+        if s.ast_type in (ASTType.Rule, ASTType.Minimize):
+            Cnt().visit(s)
+    keys = set(heads) | set(uses)
+    return sorted((k[1], heads.get(k, 0), uses.get(k, 0)) for k in keys)
 
 
 # ---------------------------------------------------------------------------------------------
